@@ -59,3 +59,12 @@ let () =
     | [_; name] -> with_file "hdr" name (fun h -> match h_header h with
         | None -> obs "hdr panic" | Some hd -> obs "hdr %s" (show_header hd))
     | _ -> failwith "hdr")
+
+let () =
+  register "hdrof" (fun tk -> match tk with
+    | [_; name] -> (match get_file name with
+        | None -> obs "hdrof openerr"
+        | Some h -> (match reopen h with
+            | None -> obs "hdrof openerr"
+            | Some h' -> (match h_header h' with None -> obs "hdrof panic" | Some hd -> obs "hdrof %s" (show_header hd))))
+    | _ -> failwith "hdrof")
